@@ -1256,10 +1256,12 @@ def fixup_strided_conv(op: Operation, arch, nng):
         # If height or width is 1 no stride is done in y or x direction and stride value can be set to 1
         # Before forcing kernel stride to 1 make sure to calculate the correct padding since it is
         # based on the original kernel stride
+        # (the IFM shape of the operator as it is now: the width may just have been folded into the depth above, and the
+        # kernel has been re-shaped accordingly)
         padding, _ = calc_padding_and_skirt(
             op.attrs["padding"],
             op.kernel,
-            ifm_shape,
+            op.ifm_shapes[0],
             op.attrs.get("explicit_padding"),
         )
         # Use explicit padding so it is not recalculated later with the wrong kernel stride
